@@ -19,6 +19,8 @@
 EXTENDS Presence
 
 CONSTANTS DEV_HiBkgIgnored,      \* Session.hello arms the background timer on {hi bkg:true} but never sets Session.background
+          DEV_ReinviteNoTopicName, \* anotherUserSub re-creates a deleted p2p subscription's cache entry without topicName: until the topic is
+                                 \* reloaded, whatever it addresses to that user's 'me' carries an empty source (no effect on the contact)
           DEV_P2PLastDelSilent   \* {del topic} by the LAST subscriber of a LOADED p2p topic (hub.topicUnreg case 1.1.1): the topic is deleted
                                  \* without any notice; the user's other sessions are not told "gone", 'me' keeps the contact
 
@@ -29,7 +31,11 @@ IsMeName(tn) == \E u \in Users : tn = "me:" \o u
 ApplyEv(r, e, a, o) ==
   CASE e.k = "row"    -> [r EXCEPT !.st.sub[e.t][e.u] = [live |-> TRUE, P |-> e.p]]
     [] e.k = "new"    -> IF e.t \in Groups THEN Then(r, LAMBDA S : JoinGrp(S, e.t, e.u, e.p))
-                         ELSE Then(r, LAMBDA S : NewP2P(S, e.t, e.u, e.p))
+                         ELSE \* a deleted row revived in a LOADED p2p topic goes through thisUserSub's new-subscription branch: notifySubChange
+                              \* (un-muted: "?unkn+en" about the peer, since the p2p case was added there) runs before the Newsub handshake
+                              Then(IF o.tl /\ e.p /\ ~DEV_P2PUnmuteSilent
+                                   THEN Then(r, LAMBDA S : Res(S, <<Out(e.u, Peer(e.t, e.u), "?unkn", "en", TRUE)>>)) ELSE r,
+                                   LAMBDA S : NewP2P(S, e.t, e.u, e.p))
     [] e.k = "gone"   -> IF e.t \in Groups THEN Then(r, LAMBDA S : GoneGrp(S, e.t, e.u))
                          ELSE LET v == Peer(e.t, e.u)
                                   peerLive == r.st.sub[e.t][v].live IN
@@ -47,8 +53,16 @@ ApplyEv(r, e, a, o) ==
     [] e.k = "evict"  -> IF e.t \in Groups
                          THEN [r EXCEPT !.st.top[e.t].att = @ \ SessOf(e.u), !.st.top[e.t].pend = @ \ SessOf(e.u), !.st.top[e.t].cnt[e.u] = 0]
                          ELSE r
+\* o.noname = users of the addressed p2p topic whose cache entry has no topic name: the messages the event adds for their
+\* 'me' about the peer are lost
+Masked(r, e, a, o) ==
+  LET r2 == ApplyEv(r, e, a, o)
+      n == Len(r.out)
+      added == SubSeq(r2.out, n + 1, Len(r2.out)) IN
+  IF ~DEV_ReinviteNoTopicName \/ e.t \notin P2Ps \/ o.noname = {} THEN r2
+  ELSE [r2 EXCEPT !.out = r.out \o SelectSeq(added, LAMBDA x : ~(x.dst \in o.noname /\ x.dst \in Ends[e.t] /\ x.m.src = Peer(e.t, x.dst)))]
 RECURSIVE ApplyEvs(_, _, _, _)
-ApplyEvs(r, ev, a, o) == IF ev = <<>> THEN r ELSE ApplyEvs(ApplyEv(r, Head(ev), a, o), Tail(ev), a, o)
+ApplyEvs(r, ev, a, o) == IF ev = <<>> THEN r ELSE ApplyEvs(Masked(r, Head(ev), a, o), Tail(ev), a, o)
 
 ActorOrder == UserOrder \o GroupOrder
 Same(S) == Res(S, <<>>)
@@ -64,7 +78,7 @@ ToFgAll(r, xs, s) ==
   IF xs = <<>> THEN r
   ELSE ToFgAll(IF s \in r.st.top[Head(xs)].pend THEN Then(r, LAMBDA X : ToFg(X, Head(xs), s)) ELSE r, Tail(xs), s)
 
-\* o = [ok, denied, fresh, tl]: tl = the addressed topic was loaded; ok = the reply was a success, denied = it was {ctrl 403} (the binding passes the observed code;
+\* o = [ok, denied, fresh, tl, noname]: tl = the addressed topic was loaded; ok = the reply was a success, denied = it was {ctrl 403} (the binding passes the observed code;
 \* the generator assumes success),
 \* fresh = the session named by a ConnectBg step was not connected (otherwise the step is a no-op)
 SeqStep(S, a, ev, o) ==
